@@ -34,8 +34,12 @@ impl SchedulerContext {
     #[verifier::external_body] pub fn validation_reset_count(&self) -> usize { unimplemented!() }
 }
 
+pub struct Config { pub concurrency_level: usize }
+pub struct CommittedPrefixEnd(pub usize);
+impl CommittedPrefixEnd { pub const ZERO: Self = Self(0); }
 #[verifier::reject_recursive_types(DB)]
 pub struct Scheduler<DB: DatabaseRef> {
+    pub config: Config,
     pub block_size: usize,
     pub scheduler_ctx: SchedulerContext,
     pub started: AtomicBool,
@@ -71,6 +75,32 @@ impl<DB: DatabaseRef> Scheduler<DB> {
         self.metrics.record_total_time(started.elapsed());
         self.metrics.report();
         result
+    }
+
+    /// stand-ins for the two execution paths: callable only by the elected caller
+    #[verifier::external_body] pub fn parallel_execute_inner(&self, c: usize, started: Instant) -> Result<(), GrevmError<DB::Error>> requires self.started.elected() { unimplemented!() }
+    #[verifier::external_body] pub fn replay_uncommitted_suffix(&self, c: CommittedPrefixEnd) -> Result<(), GrevmError<DB::Error>> requires self.started.elected() { unimplemented!() }
+    pub fn execute(&self) -> (r: Result<(), GrevmError<DB::Error>>) 
+        requires self.config.concurrency_level > 0,
+        ensures !self.started.elected() ==> r is Err,
+    {
+        self.parallel_execute(None)
+    }
+    pub fn parallel_execute(
+        &self,
+        concurrency_level: Option<usize>,
+    ) -> (r: Result<(), GrevmError<DB::Error>>) 
+        requires (match concurrency_level { Some(c) => c, None => self.config.concurrency_level }) > 0,
+        ensures !self.started.elected() ==> r is Err,
+    {
+        let concurrency_level = concurrency_level.unwrap_or(self.config.concurrency_level);
+        assert!(concurrency_level > 0, "grevm concurrency level must be greater than zero");
+        self.run_once(|started: Instant| -> (r: Result<(), GrevmError<DB::Error>>) requires self.started.elected() { self.parallel_execute_inner(concurrency_level, started) })
+    }
+    pub fn fallback_sequential(&self) -> (r: Result<(), GrevmError<DB::Error>>) 
+        ensures !self.started.elected() ==> r is Err,
+    {
+        self.run_once(|_e: Instant| -> (r: Result<(), GrevmError<DB::Error>>) requires self.started.elected() { self.replay_uncommitted_suffix(CommittedPrefixEnd::ZERO) })
     }
 }
 } // verus!
